@@ -61,6 +61,8 @@ class Part:
         model: name of a defect model that reproduces the observed wrong result exactly
                (used to attribute the record to a recorded class of known findings).
         """
+        if callable(snippet):
+            snippet = snippet()  # built lazily: only for cases that fail
         if model is not None:
             # a deviation that a named defect model reproduces exactly: counted per model (the
             # runner decides whether known_findings.json lists that model; if not, it is a violation)
